@@ -146,6 +146,8 @@ def as_region(I, st, v):
         if isinstance(tgt, VRegion):
             return tgt
         if isinstance(tgt, VVec) and tgt.elems == "u8":
+            if tgt.data is not None:
+                return VRegion(("place", v.fid, v.local, v.projs), Lin.const(0), tgt.len, v.mut)
             return VRegion(("vecbuf", tgt.key, fresh_id()), Lin.const(0), tgt.len, True)
     if isinstance(v, VVec) and v.elems == "u8":
         return VRegion(("vecbuf", v.key, fresh_id()), Lin.const(0), v.len, True)
@@ -652,6 +654,8 @@ def m_from_bytes(c):
     v = c.args[0]
     if end == "ne":
         end = "le"
+    if isinstance(v, VRegion) and v.len.is_const() and v.len.c == n:
+        v = VArray(tuple(c.I.region_bytes(c.st, v, n)), n, None, "u8")
     if isinstance(v, VArray) and v.elems is not None and all(isinstance(e, VInt) for e in v.elems) and \
             INT_TYPES[ty][0] == 0:
         r = Lin.const(0)
@@ -865,6 +869,15 @@ def m_cmp(c):
             return c.ret(VBool(cmp_formula("Eq" if name == "eq" else "Ne", a.lin, b.lin)))
         if isinstance(a, VBool) and isinstance(b, VBool) and a.f[0] == "c" and b.f[0] == "c":
             return c.ret(VBool(("c", (a.f[1] == b.f[1]) == (name == "eq"))))
+        # small byte arrays / constant-length slices: element-wise
+        ea, eb = small_bytes(c, a), small_bytes(c, b)
+        if ea is not None and eb is not None and len(ea) == len(eb):
+            f = ("c", True)
+            for x, y in zip(ea, eb):
+                g = cmp_formula("Eq", x.lin, y.lin)
+                f = g if f == ("c", True) else ("and", f, g)
+            f = f_simplify(f)
+            return c.ret(VBool(f if name == "eq" else f_not(f)))
         # local PartialEq impl?  dispatch through &A == &B wrappers
         r = dispatch_local_trait(c, "core::cmp::PartialEq", name, a, b)
         if r is not None:
@@ -875,6 +888,17 @@ def m_cmp(c):
             return c.ret(VBool(cmp_formula(name.capitalize(), a.lin, b.lin)))
         return c.ret(unknown_bool())
     return c.ret(c.fresh())
+
+
+def small_bytes(c, v):
+    """list of VInt of a small byte array value / constant-length region (None otherwise)"""
+    if isinstance(v, VArray) and v.elems is not None and len(v.elems) <= 16 and all(isinstance(e, VInt) for e in v.elems):
+        return list(v.elems)
+    if isinstance(v, VRegion) and v.len.is_const() and v.len.c <= 16:
+        bs = c.I.region_bytes(c.st, v, v.len.c)
+        if all(isinstance(e, VInt) for e in bs):
+            return bs
+    return None
 
 
 def dispatch_local_trait(c, trait, method, a, b):
@@ -1607,6 +1631,50 @@ def m_vec_retain(c):
 def m_read_exact(c):
     buf = as_region(c.I, c.st, c.args[1])
     out = []
+    rd = c.st.notes.get("rd") if c.I.opts.get("io_sim") else None
+    if rd is not None and buf is not None:
+        # comparison runs: the reader is a cursor over a symbolic input (origin, position, total length)
+        origin, pos, total = rd
+        n = buf.len
+        s_ok = c.st.fork()
+        try:
+            s_ok.add_ge0(total - pos - n)
+            if s_ok.feasible(list((total - pos - n).atoms())):
+                s_ok.notes["rd"] = (origin, pos + n, total)
+                if n.is_const() and n.c <= 64 and buf.origin[0] == "place":
+                    for i in range(n.c):
+                        c.I.write_byte(s_ok, buf.origin, buf.off + i, c.I.read_byte(s_ok, origin, pos + i))
+                    out.extend(c.ret_k(s_ok, ok(c.I, VTuple(()), c.dty)))
+                else:
+                    rg = c.I.int_range(s_ok, n, cap=64) if buf.origin[0] == "place" and buf.off.is_const() else None
+                    if rg is not None and rg[1] - rg[0] <= 48:
+                        for k in range(rg[0], rg[1] + 1):
+                            s3 = s_ok.fork()
+                            try:
+                                s3.add_ge0(n - k)
+                                s3.add_ge0(Lin.const(k) - n)
+                                if not s3.feasible(list(n.atoms())):
+                                    continue
+                            except Infeasible:
+                                continue
+                            for i in range(k):
+                                c.I.write_byte(s3, buf.origin, buf.off + i, c.I.read_byte(s3, origin, pos + i))
+                            out.extend(c.ret_k(s3, ok(c.I, VTuple(()), c.dty)))
+                    else:
+                        c.I.havoc_region(s_ok, buf)
+                        out.extend(c.ret_k(s_ok, ok(c.I, VTuple(()), c.dty)))
+        except Infeasible:
+            pass
+        s_err = c.st
+        try:
+            s_err.add_ge0(pos + n - total - 1)
+            if s_err.feasible(list((total - pos - n).atoms())):
+                c.I.havoc_region(s_err, buf)
+                s_err.notes["rd"] = (origin, total, total)
+                out.extend(c.ret_k(s_err, err(c.I, VOpaque(None, ("ioerr", "eof")), c.dty)))
+        except Infeasible:
+            pass
+        return out
     s_ok = c.st.fork()
     if buf is not None:
         c.I.havoc_region(s_ok, buf)
@@ -1624,9 +1692,18 @@ def m_read_exact(c):
        "std::io::Read::read")
 def m_write_all(c):
     out = []
+    sim = c.I.opts.get("io_sim") and c.path.endswith("write_all")
     for good in (True, False):
         s2 = c.st.fork() if good else c.st
         c.I.havoc_through(s2, c.args[0])
+        if good and sim:
+            # comparison runs: successful writes are logged (bytes when the length is a small constant)
+            r = as_region(c.I, s2, c.args[1])
+            if r is not None and r.len.is_const() and r.len.c <= 64:
+                ent = tuple(c.I.region_bytes(s2, r, r.len.c))
+            else:
+                ent = (("dyn", r, tuple(c.I.region_bytes(s2, r, 64)) if r is not None and r.origin[0] == "place" else None),)
+            s2.notes["wlog"] = s2.notes.get("wlog", ()) + ent
         if good:
             t = c.I.rt(c.dty)
             inner = VTuple(())
